@@ -3,7 +3,7 @@
    Spec.v (JsonStd) is the reference; Model.v mirrors /repo/codec after the
    repairs F09-1 (readFloat counters) and F09-2 (lone surrogates). *)
 From Coq Require Import List NArith ZArith Bool.
-From Verif Require Import Gen.Consts Base.Outcome C09.Spec C09.Model C09.ProofsStr C09.ProofsNum C09.ProofsUint C09.ProofsQuote.
+From Verif Require Import Gen.Consts Base.Outcome C09.Spec C09.Model C09.ProofsStr C09.ProofsNum C09.ProofsUint C09.ProofsQuote C09.ProofsFast C09.ProofsNumAll.
 Import ListNotations.
 
 (* readFloat on the text of ANY literal of the JSON number grammar, for each of the
@@ -21,6 +21,41 @@ Theorem C09_readfloat : forall (n : numlit) (upper : bool) (y : floatinfo),
   (rok r = false -> rtrunc r = true \/ rhard r = true).
 Proof. exact readfloat_thm. Qed.
 Print Assumptions C09_readfloat.
+
+(* the exact fast path: under the guard readFloat applies before answering ok
+   (mantissa < 2^mantbits, -exactPow10 <= exp <= exactInts+exactPow10) the reader
+   either declines (FFail: strconv will be used) or returns the bits of the float
+   nearest to mantissa * 10^exp (ties to even), with the sign.  IEEE operations are
+   modelled as Spec.rn of the exact result; Spec.RN is compared with strconv on
+   every harness literal. *)
+Theorem C09_num_fast : forall (m e : Z) (neg : bool),
+  ((0 <= m < 2 ^ 52)%Z -> (-22 <= e <= 37)%Z ->
+   parseFloat64_reader m e neg = FFail \/ parseFloat64_reader m e neg = FBits (RN binary64 neg m e)) /\
+  ((0 <= m < 2 ^ 23)%Z -> (-10 <= e <= 17)%Z ->
+   parseFloat32_reader m e neg = FFail \/ parseFloat32_reader m e neg = FBits (RN binary32 neg m e)).
+Proof. exact (fun m e neg => conj (fast64_lemma m e neg) (fast32_lemma m e neg)). Qed.
+Print Assumptions C09_num_fast.
+
+(* parseFloat64 / parseFloat32 on the text of ANY literal of the grammar: either the
+   answer is the correctly rounded value of the literal (fast path), or it is
+   exactly what strconv.ParseFloat answers for that text (the oracle, any function
+   here).  Hence: if strconv is correctly rounded, so is the JSON number reader. *)
+Theorem C09_num : forall (strconv : bfmt -> list N -> option Z) (n : numlit) (upper : bool),
+  wf_numlit n = true -> (Z.of_nat (length (render_num upper n)) < 2 ^ 61)%Z ->
+  (parseFloat_custom strconv binary64 (render_num upper n) = Some (num_bits binary64 n) \/
+   parseFloat_custom strconv binary64 (render_num upper n) = strconv binary64 (render_num upper n)) /\
+  (parseFloat_custom strconv binary32 (render_num upper n) = Some (num_bits binary32 n) \/
+   parseFloat_custom strconv binary32 (render_num upper n) = strconv binary32 (render_num upper n)).
+Proof. exact (fun sc n u H L => conj (num64_lemma sc n u H L) (num32_lemma sc n u H L)). Qed.
+Print Assumptions C09_num.
+
+(* Spec.rn depends only on the value n/d (so "the correctly rounded value of a
+   literal" does not depend on how the exact value is written as a fraction) *)
+Theorem C09_rn_ratio : forall (f : bfmt) (neg : bool) (n d n' d' : Z),
+  (0 <= n)%Z -> (0 < d)%Z -> (0 <= n')%Z -> (0 < d')%Z -> (n * d' = n' * d)%Z ->
+  rn f neg n d = rn f neg n' d'.
+Proof. exact rn_ratio. Qed.
+Print Assumptions C09_rn_ratio.
 
 (* the string decoder, on the text of ANY string literal of the grammar followed by
    anything, returns the string encoding/json defines (escapes, surrogate pairs
@@ -103,3 +138,11 @@ Example C09_uint_nonvacuous :
   = [34; 45; 49;56;52;52;54;55;52;52;48;55;51;55;48;57;53;53;49;54;49;53; 34]%N
   /\ parseUint64_simple (jsonEncodeUint false false 18446744073709551615) = (18446744073709551615%Z, true).
 Proof. vm_compute. split; reflexivity. Qed.
+
+Example C09_num_nonvacuous :
+  (* 0.001 on the fast path; a two-step product above 1e15 declined; 2^52 as mantissa declined by readFloat *)
+  parseFloat64_reader 1 (-3) false = FBits 4562254508917369340%Z
+  /\ RN binary64 false 1 (-3) = 4562254508917369340%Z
+  /\ parseFloat64_reader 4503599627370495 37 true = FFail
+  /\ rok (readFloat [52;53;48;51;53;57;57;54;50;55;51;55;48;52;57;54]%N fi64) = false.
+Proof. vm_compute. repeat apply conj; reflexivity. Qed.
